@@ -421,6 +421,15 @@ class PrintVisitor(base_visitor.Visitor):
   def VisitClass(self, node):
     """Visit a class, producing a multi-line, properly indented string."""
     bases = node.bases
+    keywords = []
+    for k, v in node.keywords:
+      vmatch = re.fullmatch(r"Literal\[(.+)\]", v)
+      if vmatch:
+        self._imports.decrement_typing_count("Literal")
+        vprint = vmatch.group(1)
+      else:
+        vprint = v
+      keywords.append(f"{k}={vprint}")
     if bases == ("TypedDict",):
       constants = {}
       for c in node.constants:
@@ -432,19 +441,11 @@ class PrintVisitor(base_visitor.Visitor):
         fields = "{%s}" % ", ".join(
             f"{name!r}: {typ}" for name, typ in constants.items()
         )
-        return f"{node.name} = TypedDict('{node.name}', {fields})"
+        args = ", ".join([f"'{node.name}'", fields] + keywords)
+        return f"{node.name} = TypedDict({args})"
     # If object is the only base, we don't need to list any bases.
     if bases == ("object",):
       bases = ()
-    keywords = []
-    for k, v in node.keywords:
-      vmatch = re.fullmatch(r"Literal\[(.+)\]", v)
-      if vmatch:
-        self._imports.decrement_typing_count("Literal")
-        vprint = vmatch.group(1)
-      else:
-        vprint = v
-      keywords.append(f"{k}={vprint}")
     bases += tuple(keywords)
     bases_str = f"({', '.join(bases)})" if bases else ""
     header = [f"class {node.name}{bases_str}:"]
